@@ -4,9 +4,9 @@ package act
 
 import (
 	"fmt"
-	"sort"
 	"os"
 	"path/filepath"
+	"sort"
 	"strconv"
 	"strings"
 	"time"
